@@ -439,13 +439,13 @@ contract('Environments.DiscreteWorld.get_moore_neighbours', variant='tuple',
          requires=[grid_world, centre_ok, is_tuple_ret],
          ensures={'C10': [moore_tuple_post]},
          modifies=['new:list[tuple[int,int,int]]'],
-         locals={'neighbours': 'list[tuple[int,int,int]]'}, native=False, props=['C10'])
+         locals={'neighbours': 'list[tuple[int,int,int]]'}, roles={'neighbours': 'emptylist#0'}, native=False, props=['C10'])
 contract('Environments.DiscreteWorld.get_neumann_neighbours', variant='tuple',
          params=NBR_PARAMS, returns='list[tuple[int,int,int]]',
          requires=[grid_world, centre_ok, is_tuple_ret],
          ensures={'C10': [neumann_tuple_post]},
          modifies=['new:list[tuple[int,int,int]]'],
-         locals={'neighbours': 'list[tuple[int,int,int]]'}, native=False, props=['C10'])
+         locals={'neighbours': 'list[tuple[int,int,int]]'}, roles={'neighbours': 'emptylist#0'}, native=False, props=['C10'])
 from pyvc.specs import origin, by_lemma   # noqa: E402
 
 
@@ -507,13 +507,13 @@ contract('Environments.DiscreteWorld.get_moore_neighbours', variant='int',
          requires=[grid_world, centre_ok, is_int_ret],
          ensures={'C10': [moore_int_post]},
          modifies=['new:list[int]'],
-         locals={'neighbours': 'list[int]'}, native=False, props=['C10'])
+         locals={'neighbours': 'list[int]'}, roles={'neighbours': 'emptylist#0'}, native=False, props=['C10'])
 contract('Environments.DiscreteWorld.get_neumann_neighbours', variant='int',
          params=NBR_PARAMS, returns='list[int]',
          requires=[grid_world, centre_ok, is_int_ret],
          ensures={'C10': [neumann_int_post]},
          modifies=['new:list[int]'],
-         locals={'neighbours': 'list[int]'}, native=False, props=['C10'])
+         locals={'neighbours': 'list[int]'}, roles={'neighbours': 'emptylist#0'}, native=False, props=['C10'])
 
 
 def as_tuple_int_post(self, cell_pos, result):
@@ -695,3 +695,45 @@ contract('Environments.LookupGenerator.__call__', variant='grid2d',
          params={'self': 'ref:LookupGenerator', 'pos': 'tuple[int,int,int]', 'cells': 'ref:DataFrame'},
          returns='any', ensures={'C11': [lookup_grid_post]}, native=False, props=['C11'],
          expect_refuted=True, notes='expected refuted: open finding F4')
+
+
+# ------------------------------------------------------------------------------------------------ LineWorld / GridWorld
+def line_init_post(self, model, width, id, wrap_env, old):
+    return (self.width == width and self.height == 0 and self.depth == 0 and self.wrap_env == wrap_env
+            and self._index_offset == 1 and len(self.agents) == 0)
+
+
+def line_bad(self, model, width, id, wrap_env, old):
+    return width < 1
+
+
+contract('Environments.LineWorld.__init__',
+         params={'self': 'ref:LineWorld', 'model': 'ref:Model', 'width': 'int', 'id': 'str', 'wrap_env': 'bool'},
+         ensures={'C09': [line_init_post, Grid_rep], 'C08': [line_init_post, InWorld]},
+         raises={'IndexError': dict(when=line_bad)},
+         modifies=['self.id', 'self.model', 'field:self.components', 'self.tag', 'field:self.agents', 'self.width',
+                   'self.height', 'self.depth', 'self.wrap_env', 'self._index_offset', 'self.cells',
+                   'new:dict[cls,ref:Component]', 'new:dict[str,ref:Agent]', 'new:obj:DataFrame',
+                   'new:list[tuple[int,int,int]]', 'new:dict[str,list[any]]'],
+         native=False, props=['C09', 'C08'])
+
+
+def grid_init_post(self, model, width, height, id, wrap_env, old):
+    return (self.width == width and self.height == height and self.depth == 0 and self.wrap_env == wrap_env
+            and self._index_offset == 1 and len(self.agents) == 0)
+
+
+def grid_bad(self, model, width, height, id, wrap_env, old):
+    return width < 1 or height < 1
+
+
+contract('Environments.GridWorld.__init__',
+         params={'self': 'ref:GridWorld', 'model': 'ref:Model', 'width': 'int', 'height': 'int', 'id': 'str',
+                 'wrap_env': 'bool'},
+         ensures={'C09': [grid_init_post, Grid_rep], 'C08': [grid_init_post, InWorld]},
+         raises={'IndexError': dict(when=grid_bad)},
+         modifies=['self.id', 'self.model', 'field:self.components', 'self.tag', 'field:self.agents', 'self.width',
+                   'self.height', 'self.depth', 'self.wrap_env', 'self._index_offset', 'self.cells',
+                   'new:dict[cls,ref:Component]', 'new:dict[str,ref:Agent]', 'new:obj:DataFrame',
+                   'new:list[tuple[int,int,int]]', 'new:dict[str,list[any]]'],
+         native=False, props=['C09', 'C08'])
